@@ -70,7 +70,8 @@ def main():
             got = a[...]
             if np.dtype(got.dtype).str != arr.dtype.str or got.shape != arr.shape or got.tobytes() != arr.tobytes():
                 report({'fuzz': 'bytes', 'kind': k, 'grow': grow, 'desc_hex': desc.hex(), 'why': 'handle reads differently from the files'})
-    elif mode == 'c20':
+    elif mode in ('c20a', 'c20r'):
+        only = 'a' if mode == 'c20a' else 'r'      # one array per campaign: a DataDir only protects the files of its own array
         parent = os.path.join(work, 'parent')
         objs = {}
 
@@ -79,10 +80,12 @@ def main():
                 shutil.rmtree(parent)
             os.makedirs(os.path.join(parent, 'pa'))
             os.makedirs(os.path.join(parent, 'pr'))
-            a = darr.asarray(os.path.join(parent, 'pa', 'a.darr'), np.arange(8, dtype='int32'), accessmode='r+', metadata={'m': 1})
-            r = darr.asraggedarray(os.path.join(parent, 'pr', 'r.darr'), [[1, 2], [3], []], dtype='float32', accessmode='r+')
-            objs['a'] = (a, str(a.path), snapshot(str(a.path)))
-            objs['r'] = (r, str(r.path), snapshot(str(r.path)))
+            if only == 'a':
+                a = darr.asarray(os.path.join(parent, 'pa', 'a.darr'), np.arange(8, dtype='int32'), accessmode='r+', metadata={'m': 1})
+                objs['a'] = (a, str(a.path), snapshot(str(a.path)))
+            else:
+                r = darr.asraggedarray(os.path.join(parent, 'pr', 'r.darr'), [[1, 2], [3], []], dtype='float32', accessmode='r+')
+                objs['r'] = (r, str(r.path), snapshot(str(r.path)))
         fresh()
 
         def target(data):
@@ -95,7 +98,9 @@ def main():
                 name = data[1:].decode('latin-1')
             if not name or '\x00' in name:
                 return
-            obj, path, own = objs['a' if which & 1 else 'r']
+            obj, path, own = objs[only]
+            state.setdefault('hist', []).append([which, name])
+            del state['hist'][:-12]
             dd = obj.datadir
             m = (which >> 1) % 8
             try:
@@ -118,11 +123,11 @@ def main():
             now = snapshot(path)
             changed = [k for k in own if now.get(k) != own[k]]
             if changed:
-                report({'fuzz': 'path', 'which': which, 'name': name, 'changed': changed[:4]})
+                report({'fuzz': 'path', 'which': (which & ~1) | (1 if only == 'a' else 0), 'name': name, 'changed': changed[:4], 'recent': state['hist']})
             extra = [k for k in now if k not in own]
-            inside = [k for k in extra if k.split('/')[0] in ('values', 'indices')]
+            inside = [k for k in extra if only == 'r' and (k.startswith('values/') or k.startswith('indices/'))]
             if inside:
-                report({'fuzz': 'path', 'which': which, 'name': name, 'changed': inside[:4], 'why': 'created inside a protected directory'})
+                report({'fuzz': 'path', 'which': (which & ~1), 'name': name, 'changed': inside[:4], 'why': 'created inside a protected directory'})
             for k in extra:            # user files are legitimate: remove them again
                 full = os.path.join(path, k)
                 try:
